@@ -12,6 +12,7 @@ Decided
   A4  features from waveforms: projection contracts the sample axis and returns (spike, channel, component); 3 components;
       computed features are written at the positions of the stored spikes within the request
   +   a buffer that receives stored values holds them exactly: float64 (NumPy default) or the dtype of the store, never a narrower type (the loader accepts float64 stores)
+  +   the column table is flattened and the looked-up positions reshaped back in the same (row-major) order: order='K' / 'A' / 'F' on one side is a violation
 Not decided: PCA numerics, value equality.
 """
 import ast
@@ -230,6 +231,23 @@ def run(ctx):
         'the column dropped is `%s`, not the last one where discarded values were written' % (dt or 'none'), fs)
     loc = [x for x in fs.nodes(ast.Assign) if unparse(x.targets[0]) == 'cols_loc']
     tri(bool(loc) and '.reshape(%s.shape)' % cp in unparse(loc[0].value), False, loc[0] if loc else 'from_sparse', 'looked-up columns keep the layout of the column table', '', fs)
+    # the column table is flattened and the looked-up positions reshaped back: both in C (row-major) order. A flattening in memory order ('K' / 'A') or column-major
+    # order ('F') pairs position k of the flat table with another (row, slot) than reshape(cols.shape) puts it back to, for tables that are not C-contiguous
+    flat_calls = [c_ for c_ in fs.calls() if (q.method_name(c_) in ('flatten', 'ravel') or dotted(c_.func) in ('np.ravel',) or (q.method_name(c_) == 'reshape' and c_.args and const_value(c_.args[0]) == -1))]
+    reshp = [c_ for c_ in fs.calls() if q.method_name(c_) == 'reshape' and not (c_.args and const_value(c_.args[0]) == -1)]
+
+    def order_of(c_):
+        o_ = q.kwarg(c_, 'order')
+        if o_ is None and q.method_name(c_) in ('flatten', 'ravel') and c_.args:
+            o_ = c_.args[0]
+        if o_ is None and dotted(c_.func) == 'np.ravel' and len(c_.args) > 1:
+            o_ = c_.args[1]
+        return 'C' if o_ is None else const_value(o_)
+    orders = {order_of(c_) for c_ in flat_calls + reshp}
+    tri(bool(flat_calls) and orders == {'C'}, bool(orders - {'C', None}), (([c_ for c_ in flat_calls + reshp if order_of(c_) != 'C'] or flat_calls or ['from_sparse'])[0]),
+        'the column table is flattened and the positions reshaped back in the same (row-major) order',
+        'the column table is flattened / reshaped with order=%s while the other side uses row-major order: for a column table that is not C-contiguous (a transposed or broadcast view, '
+        'a column-major array) stored values land in the wrong (spike, channel) cell' % sorted(str(o_) for o_ in orders - {'C'}), fs)
     io = repo.func(AR, '_index_of')
     ap, lp = io.params[:2]
     from obligations.shape_tables import empty_lookup_guard
